@@ -24,16 +24,7 @@ def view(ex, info):
         for tag, v in info.get("args") or []:
             if tag == "elem":
                 placed.append(any(c is v for c in kids))
-    v = {"els": rows, "ac": ac, "placed": placed}
-    if info.get("target") is not None and (info.get("live_args") or info.get("raised") is not None or ex.aux):
-        live = info.get("live_args") or []
-        kids = ex.children(info["target"])
-        v["_fp"] = {"live": len(live), "tree": info.get("tree", 0), "route": info.get("atomic"),
-                    "raised": info.get("raised") is not None,
-                    "moved": sum(1 for a in live if any(c is a for c in kids)) if info.get("raised") is None else 0,
-                    "aliased": sum(1 for a in live if len(ex.holders(a)) > 1),
-                    "taint": len(ex.taint)}
-    return v
+    return {"els": rows, "ac": ac, "placed": placed}
 
 
 # ---------------------------------------------------------------- oracle
@@ -174,10 +165,10 @@ def check_call(ex, info, fails):
         if op["op"] == "pop" and isinstance(ret, tuple):
             r = ret[1]
             r = getattr(r, "element", r) if isinstance(r, Slot) else r
-            if id(r) in below and id(r) not in ex.taint:      # (an aliased element may be listed once more)
+            if id(r) in below and id(r) not in info.get("tainted", ()):      # (an aliased element may be listed once more)
                 fail("removed-is-unreachable", "popped element not under the container", "still reachable")
         for old in info.get("before_children") or []:
-            if id(old) in ex.taint:
+            if id(old) in info.get("tainted", ()):
                 continue        # aliased: another container below the target may list it too
             if not any(c is old for c in now) and id(old) in below:
                 fail("removed-is-unreachable", "removed element not under the container", "still reachable")
@@ -494,7 +485,8 @@ class C08(Property):
         steps = obs["steps"]
         t.append("maxsize=%d" % min(30, max(len(s["view"]["els"]) for s in steps)))
         t.append("maxdepth=%d" % max(len(r[1]) for s in steps for r in s["view"]["els"]))
-        for o, st in zip(case["ops"], steps[1:]):
+        fps = obs.get("_fp") or [None] * len(steps)
+        for idx, (o, st) in enumerate(zip(case["ops"], steps[1:]), 1):
             out = st["out"]
             if isinstance(out, dict) and "skip" in out:
                 t.append("skip:" + out["skip"].split(":")[0])
@@ -506,7 +498,7 @@ class C08(Property):
                 t.append("raised:" + out["exc"])
             if st["view"]["placed"]:
                 t.append("element-arg:" + ("placed" if all(st["view"]["placed"]) else "not-placed"))
-            fp = st["view"].get("_fp")
+            fp = fps[idx]
             if fp:
                 if fp["raised"]:
                     t.append("fp:rejected:%s" % fp["route"] if fp["route"] else "fp:raised-after-effects")
@@ -527,7 +519,7 @@ class C08(Property):
         if G.has_failure_paths(case):
             t.append("fp:case")
             # a rejected call followed by a call that changes the tree again
-            rej = [i for i, st in enumerate(steps) if (st["view"].get("_fp") or {}).get("raised") and (st["view"].get("_fp") or {}).get("route")]
+            rej = [i for i, fp in enumerate(fps) if fp and fp["raised"] and fp["route"]]
             if rej and any(a["view"]["els"] != b["view"]["els"] for a, b in zip(steps[rej[0]:], steps[rej[0] + 1:])):
                 t.append("fp:rejected-then-changed")
         for o in case["ops"]:
